@@ -105,6 +105,24 @@ theorem maintenance_invisible (cfg : Cfg) (hfix : cfg.fixedInit = true) (ops ms 
   refine ⟨h1.1, h2.1, fun ht => h1.2 ?_⟩
   rw [written_append_maintenance ops ms hm]; exact ht
 
+/-- the same on the columnar read path (`PullBatch`, batch cut as repaired by fixes/F57.diff) -/
+theorem maintenance_invisible_batch (cfg : Cfg) (hfix : cfg.fixedInit = true) (hb : cfg.batchFinishRun = true)
+    (hmr : 0 < cfg.batchRows) (ops ms : List Op)
+    (hm : ∀ m ∈ ms, Op.isMaintenance m = true) (q : Query) (h0 : ¬ (0 ∈ q.sids)) :
+    let before := (Table.run cfg ops).queryBatch cfg q
+    let after := (ms.foldl (Table.step cfg) (Table.run cfg ops)).queryBatch cfg q
+    (∀ x ∈ after, ∃ y ∈ before, SameKey x y ∧ x.ver = y.ver) ∧
+    (∀ y ∈ before, ∃ x ∈ after, SameKey y x ∧ y.ver = x.ver) ∧
+    (TieFree (written ops) → after = before) := by
+  intro before after
+  have e1 : before = (Table.run cfg ops).query q := C02.batch_path_eq_row_path cfg hfix hb hmr ops q h0
+  have e2 : after = (ms.foldl (Table.step cfg) (Table.run cfg ops)).query q := by
+    show (ms.foldl (Table.step cfg) (Table.run cfg ops)).queryBatch cfg q = _
+    rw [← run_append]
+    exact C02.batch_path_eq_row_path cfg hfix hb hmr (ops ++ ms) q h0
+  rw [e1, e2]
+  exact maintenance_invisible cfg hfix ops ms hm q h0
+
 /-- single step form -/
 theorem maintenance_step_invisible (cfg : Cfg) (hfix : cfg.fixedInit = true) (ops : List Op) (m : Op)
     (hm : Op.isMaintenance m = true) (q : Query) (h0 : ¬ (0 ∈ q.sids)) (ht : TieFree (written ops)) :
